@@ -97,17 +97,6 @@ fn get_challenges<F: RichField + Extendable<D>, C: GenericConfig<D, F = F>, cons
 impl<F: RichField + Extendable<D>, C: GenericConfig<D, F = F>, const D: usize>
     ProofWithPublicInputs<F, C, D>
 {
-    pub(crate) fn fri_query_indices(
-        &self,
-        circuit_digest: &<<C as GenericConfig<D>>::Hasher as Hasher<C::F>>::Hash,
-        common_data: &CommonCircuitData<F, D>,
-    ) -> anyhow::Result<Vec<usize>> {
-        Ok(self
-            .get_challenges(self.get_public_inputs_hash(), circuit_digest, common_data)?
-            .fri_challenges
-            .fri_query_indices)
-    }
-
     /// Computes all Fiat-Shamir challenges used in the Plonk proof.
     pub fn get_challenges(
         &self,
